@@ -288,6 +288,17 @@ func runCheck(P *Prog, opt CheckOpts) int {
 		}
 	}
 
+	// interface contracts this run relied on: every clover method that can stand behind the interface must be verified
+	// against the contract; the store interfaces are the documented exception (their adapters are verified against
+	// library-level contracts, the link to the protocol-level interface contract is an assumption)
+	var assumedIface []string
+	for _, l := range P.uncheckedImplementers(true) {
+		if strings.Contains(l, " stands behind "+modPath+"/store.") {
+			assumedIface = append(assumedIface, l)
+			continue
+		}
+		transErrs = append(transErrs, "interface contract relied on by this check: "+l)
+	}
 	exit := 0
 	replayDir := filepath.Join(opt.OutDir, "replay", prop)
 	os.MkdirAll(replayDir, 0o755)
@@ -359,6 +370,9 @@ func runCheck(P *Prog, opt CheckOpts) int {
 		}
 		level := "proof"
 		tb := append([]string{}, assumptionsBase...)
+		if len(assumedIface) > 0 {
+			tb = append(tb, fmt.Sprintf("interface contracts of package store used by this check are ASSUMED of the adapters (%d adapter methods verified against library-level contracts only; run `govc ifacecheck` for the list)", len(assumedIface)))
+		}
 		for _, k := range tl {
 			tb = append(tb, "trusted contract: "+k)
 		}
